@@ -838,6 +838,9 @@ class Func:
                 elif cond is not None and br is not None:
                     if br[0] == "case":
                         alts = [[("(%s == %s)" % (S(cond), br[1]), True)]]
+                    elif br[0] in ("default", "nocase"):
+                        # the default arm is taken for none of the labelled values
+                        alts = [[("(%s == %s)" % (S(cond), b2[1]), False) for (_s2, _c2, b2) in self.edges(b) if b2 is not None and b2[0] == "case"]]
                 for at in alts:
                     ok = True
                     if prune:
@@ -897,6 +900,22 @@ class Program:
         import symren as _symren
         nm = _namemap()
         self.symren = _symren.canonicalise(facts, nm, root)
+        # narrowing integral conversions on `return` (`static uint8_t n(void) { return m_queue_len(q); }`), noted before helpers are inlined
+        # and their return statements dissolve into the callers
+        self.narrow_returns = []
+        _W = {"_Bool": 1, "char": 1, "signed char": 1, "unsigned char": 1, "short": 2, "unsigned short": 2, "int": 4, "unsigned int": 4,
+              "long": 8, "unsigned long": 8, "long long": 8, "unsigned long long": 8}
+        for u in self.units:
+            for rf in facts[u]["functions"]:
+                for b in rf["blocks"]:
+                    for ev in b["events"]:
+                        if ev.get("ev") != "ret" or not isinstance(ev.get("e"), dict):
+                            continue
+                        for x in walk(ev["e"]):
+                            if isinstance(x, dict) and x.get("k") in ("icast", "cast") and x.get("ck") == "IntegralCast":
+                                fw, tw = _W.get(x.get("from_ct")), _W.get(x.get("ct"))
+                                if fw and tw and fw > tw and isinstance(x.get("e"), dict) and x["e"].get("cv") is None:
+                                    self.narrow_returns.append((u, rf["name"], S(x["e"]), x.get("from_ct"), x.get("ct"), ev.get("line")))
         import structassign as _sa
         for u in self.units:
             if not facts[u].get("_structassign_done"):
